@@ -829,6 +829,12 @@ class ExprMixin(object):
                         raise OutOfReach('generator element not pure')
                     cs.append(self.eq(st, outs[0][1], item))
                 return st, self.or_(cs)
+            if seq.is_py and isinstance(seq.py, DictValues) and isinstance(node.elt, ast.Attribute) \
+                    and isinstance(node.elt.value, ast.Name) and node.elt.attr == '__name__':
+                # `x in (c.__name__ for c in d.values())` over a symbolic table of classes: the answer is left open (both
+                # outcomes are explored) - an over-approximation, enough for frame and exception obligations
+                self.notes.append('membership in a generator over a symbolic class table: abstracted to an unknown boolean')
+                return st, z3.FreshConst(BoolS, 'class_table_member')
             raise OutOfReach('membership in generator over %r' % (seq,))
         raise OutOfReach('generator source')
 
